@@ -43,6 +43,7 @@ TOLERANCES = {"permutation-default": 1e-6,    # [4.3e-9] of the peak field
               "displaced-sphere": 1e-5,       # [2.2e-7]
               "auto-vs-explicit": "bit-identical"}
 TIMEOUT = 900
+MIN_AGREEING_PAIRS = 3        # [worst observed: 6 of 15]
 
 SPECS = [(1.59, 0.5), (1.45, 0.3), (1.7, 0.25), (1.59 + 0.05j, 0.4),
          (1.5, 0.6), (1.45, 0.45)]
@@ -398,6 +399,7 @@ def _run_rot(case, ck):
         base = _field(det0, _spheres(sub), shared or Multisphere(**kw), pol0)
         ck.trans += 1
         peak = np.abs(base).max()
+        frames = [base[:, :2].copy()]
         for ang in ROTS:
             ps = math.radians(ang)
             c, s = math.cos(ps), math.sin(ps)
@@ -416,6 +418,36 @@ def _run_rot(case, ck):
                     "%g deg about the optical axis: field differs from the "
                     "rotated field by %.2e (%s options)" %
                     (sub, ang, e, opt))
+        # The tolerance above is the solver's accuracy.  Below it the
+        # solver is exact to rounding EXCEPT for a discrete switch (an
+        # expansion order decided by the last bit of a coordinate) worth
+        # about 6e-8: the six orientations fall into two or three groups
+        # that agree among themselves to 1e-14.  A smooth error of any size
+        # (a phase factor in single precision) leaves no two orientations in
+        # agreement.
+        # (orientations no two of which differ by a multiple of a quarter
+        # turn: single-precision cosines and sines of angles a quarter turn
+        # apart round alike)
+        for ang in (37.0, 111.0, -120.0, 1.0, 200.0):
+            ps = math.radians(ang)
+            c, s = math.cos(ps), math.sin(ps)
+            R = np.array([[c, -s, 0], [s, c, 0], [0, 0, 1.0]])
+            pivot = np.array([0.4, -0.3, 0.0])
+            f = _field(H.det_points(pivot + (pts0 - pivot) @ R.T),
+                       _spheres(sub, R=R, pivot=pivot),
+                       shared or Multisphere(**kw),
+                       (math.cos(0.3 + ps), math.sin(0.3 + ps)))
+            ck.trans += 1
+            frames.append(f[:, :2] @ R[:2, :2])      # back in the base frame
+        agree = sum(1 for a_, b_ in itertools.combinations(frames, 2)
+                    if float(np.abs(a_ - b_).max() / peak) <= 1e-11)
+        ck.metric("rotation-agreeing-pairs-of-15:" +
+                  opt.replace("-reused-theory", ""), -agree)
+        ck.true("rotation-exact-up-to-discrete-states", agree >=
+                MIN_AGREEING_PAIRS, "cluster %r: only %d of the 15 pairs "
+                "among the original and five rotated configurations agree "
+                "to 1e-11 of the peak field (%s options)" %
+                (sub, agree, opt))
         fps.append(fp_values(base))
     # far-field amplitude matrices (scattering-plane basis): the matrix of
     # the rotated cluster in the direction (theta, phi + psi) is the matrix
